@@ -81,6 +81,8 @@ type bctx struct {
 	own     []LF
 	calls   map[*ast.CallExpr]CallSite
 	finite  map[string][]int64 // atom -> finite value set
+	pfCache map[int][2][]LF
+	pfBusy  map[int]bool
 	assumeSucc *ast.CallExpr // while inferring success postconditions: this call is known to have succeeded
 }
 
@@ -999,8 +1001,13 @@ func (b *bctx) callTerm(c *ast.CallExpr, at int, facts *[]LF) LF {
 			var f []LF
 			v := b.term(inner, at, &f)
 			lo, hi, hasLo, hasHi := typeRange(t)
-			okLo := !hasLo || proves(append(append([]LF{}, *facts...), f...), v.addConst(-lo))
-			okHi := !hasHi || proves(append(append([]LF{}, *facts...), f...), lfConst(hi).plus(v, -1))
+			ctxFacts := append(append(append([]LF{}, *facts...), f...), b.own...)
+			if b.useAt >= 0 {
+				pf, nq := b.pathFactsCached(at)
+				ctxFacts = strengthen(append(ctxFacts, pf...), nq)
+			}
+			okLo := !hasLo || proves(ctxFacts, v.addConst(-lo))
+			okHi := !hasHi || proves(ctxFacts, lfConst(hi).plus(v, -1))
 			if tb, isB := t.Underlying().(*types.Basic); isB && (tb.Kind() == types.Int || tb.Kind() == types.Int64) {
 				// from an unsigned 64-bit: negative results are possible only above MaxInt64; treat as preserving when non-negative is all we need is unsound; keep opaque
 				okLo, okHi = false, false
@@ -1480,6 +1487,27 @@ func (b *bctx) contentWritesBetween(o types.Object, cv, u int) []int {
 	return out
 }
 
+// pathFactsCached memoises pathFacts per vertex (guarding against re-entrance).
+func (b *bctx) pathFactsCached(u int) ([]LF, []LF) {
+	if b.pfCache == nil {
+		b.pfCache = map[int][2][]LF{}
+	}
+	if r, ok := b.pfCache[u]; ok {
+		return r[0], r[1]
+	}
+	if b.pfBusy[u] {
+		return nil, nil
+	}
+	if b.pfBusy == nil {
+		b.pfBusy = map[int]bool{}
+	}
+	b.pfBusy[u] = true
+	pf, nq := b.pathFacts(u)
+	delete(b.pfBusy, u)
+	b.pfCache[u] = [2][]LF{pf, nq}
+	return pf, nq
+}
+
 // strengthen turns d != 0 into d >= 1 or d <= -1 when the sign of d is known.
 func strengthen(facts []LF, neq []LF) []LF {
 	for _, d := range neq {
@@ -1794,6 +1822,10 @@ func stdEnsuresSucc(fn *types.Func) []LF {
 func stdRequires(fn *types.Func) []LF {
 	if fn.Pkg() == nil {
 		return nil
+	}
+	if fn.Pkg().Path() == "crypto/cipher" && namedTypeName(recvTypeOf(fn)) == "Block" && (fn.Name() == "Encrypt" || fn.Name() == "Decrypt") {
+		// AES block size (every cipher.Block of the module comes from aes.NewCipher: C06-R3)
+		return []LF{lfAtom("len(P0)").addConst(-16), lfAtom("len(P1)").addConst(-16)}
 	}
 	if fn.Pkg().Path() == "encoding/binary" {
 		need := int64(0)
